@@ -356,6 +356,9 @@ pub struct RunOut {
     pub error_text: Option<String>,
     /// for a run that ended with an error: the error shown by a snapshot taken after a subsequent clear()
     pub error_after_clear: Option<Option<String>>,
+    /// the clock when the run returned, and whether the harness ended it (iteration budget of the simulated environment used up)
+    pub end_ns: u64,
+    pub budget_hit: bool,
 }
 
 impl RunOut {
@@ -440,7 +443,7 @@ pub fn exec(cfg: &Cfg, env: Box<dyn Env>, t0: u64, tick: u64) -> RunOut {
     let tracer = match cfg.build() {
         Ok(t) => t,
         Err(e) => {
-            return RunOut { result: format!("err:{}", ErrK::of(&e).tok()), sends: vec![], rounds: vec![], iters: vec![], t0, snapshot: None, error_text: None, error_after_clear: None };
+            return RunOut { result: format!("err:{}", ErrK::of(&e).tok()), sends: vec![], rounds: vec![], iters: vec![], t0, snapshot: None, error_text: None, error_after_clear: None, end_ns: t0, budget_hit: false };
         }
     };
     let _ = vclock::take_readings();
@@ -458,6 +461,7 @@ pub fn exec(cfg: &Cfg, env: Box<dyn Env>, t0: u64, tick: u64) -> RunOut {
         })
     }));
     vclock::RECORD.store(false, std::sync::atomic::Ordering::SeqCst);
+    let end_ns = vclock::now();
     let mut lg = log.borrow_mut();
     drain_clock(&mut lg);
     vclock::set_script(vec![]);
@@ -527,7 +531,7 @@ pub fn exec(cfg: &Cfg, env: Box<dyn Env>, t0: u64, tick: u64) -> RunOut {
     }
     let snapshot = Some(tracer.snapshot());
     let error_after_clear = if result.starts_with("err:") { tracer.clear(); Some(tracer.snapshot().error().map(ToString::to_string)) } else { None };
-    RunOut { result, sends, rounds, iters, t0: t0_seen.unwrap_or(t0), snapshot, error_text, error_after_clear }
+    RunOut { result, sends, rounds, iters, t0: t0_seen.unwrap_or(t0), snapshot, error_text, error_after_clear, end_ns, budget_hit: crate::simnet::BUDGET_HIT.swap(false, std::sync::atomic::Ordering::SeqCst) }
 }
 
 /// Replay environment: feeds a recorded trace back (exhaustion => timeouts / sent).
